@@ -297,8 +297,7 @@ impl InterfaceIO for RustIOHandler {
             // private key (32 bytes) + public key (33 bytes): a shorter file is truncated or torn
             return Err(Error::from(std::io::ErrorKind::InvalidData));
         }
-        wallet.deserialize_from_disk(&buffer);
-        Ok(())
+        wallet.deserialize_from_disk(&buffer)
     }
 
     fn get_my_services(&self) -> Vec<PeerService> {
